@@ -23,7 +23,7 @@ RULE = (
     "neighbours overlap), positions jittered by <0.04, each under {overlap, distance x cut-off "
     "0.5/1.5/none/-1} x {no grid, periodic grid} and three time axes (one passing through 0); "
     "plus random histories (d=1..3, 1..8 frames, births, deaths, empty frames, splitting, member "
-    "reordering, wrap-around, negative/non-uniform times), histories with overlapping droplets "
+    "reordering, wrap-around, negative/non-uniform times; members spherical, diffuse (width None/0/x) or perturbed 2-D/3-D), histories with overlapping droplets "
     "(partition clause only) and adversarial drifts across periodic boundaries. Non-trivial = "
     "the history contains an appearance, a disappearance or an empty frame. Distinct = digest of "
     "the whole case."
@@ -106,6 +106,7 @@ def judge(hist, rec, *, clauses="C06"):
         rec.evaluated(nontrivial=nontrivial_history(hist))
         rec.count(f"method:{hist['method']}|cut:{hist.get('max_dist')}|grid:{bool(hist.get('grid'))}")
         rec.count(f"frames:{len(hist['frames'])}")
+        rec.count(f"members:{hist.get('cls', 'SphericalDroplet')}")
         if any(len(f) == 0 for f in hist["frames"]):
             rec.count("histories_with_empty_frame")
         return indexed
